@@ -6,29 +6,38 @@
      PCb(id, err)          the completion callback of request id is invoked; err = it carries a non-nil error
      PPanic                the backend panicked
      PExpired(ids)         the retry window of these requests (HTTP backends) ended a while ago
+     PRet(id)              the SendMetricsAsync call of request id returned
+     PCancelled(id)        (socket backends) request id was cancelled and the backend has come to rest since
      PFinal                the fault script has ended (transport recovered / retry windows over / everything cancelled) and the
                            backend is at rest
    Clauses: CbAtMostOnce; CbExactlyOnce (at PFinal every request has been answered); ErrIfNotDelivered (a callback without error
    requires that every batch seen for the request got through in its LAST attempt); NoPanic; UnknownRequest. *)
 EXTENDS Naturals, FiniteSets, Sequences
 
-VARIABLES reqs, cbs, lastOk, bad
+VARIABLES reqs, cbs, rets, lastOk, bad
 \* reqs: set of ids;  cbs: set of ids answered;  lastOk: <<id, batch>> -> BOOLEAN
-pvars == <<reqs, cbs, lastOk, bad>>
-PInit == reqs = {} /\ cbs = {} /\ lastOk = <<>> /\ bad = ""
+pvars == <<reqs, cbs, rets, lastOk, bad>>
+PInit == reqs = {} /\ cbs = {} /\ rets = {} /\ lastOk = <<>> /\ bad = ""
 Latch(v) == bad' = IF bad # "" THEN bad ELSE v
-PReq(id) == reqs' = reqs \cup {id} /\ UNCHANGED <<cbs, lastOk, bad>>
+PReq(id) == reqs' = reqs \cup {id} /\ UNCHANGED <<cbs, rets, lastOk, bad>>
 PAttempt(id, b, ok) == /\ lastOk' = [k \in DOMAIN lastOk \cup {<<id, b>>} |-> IF k = <<id, b>> THEN ok ELSE lastOk[k]]
-                       /\ UNCHANGED <<reqs, cbs, bad>>
+                       /\ UNCHANGED <<reqs, cbs, rets, bad>>
 PCb(id, err) ==
   /\ Latch(IF id \notin reqs THEN "UnknownRequest"
            ELSE IF id \in cbs THEN "CbAtMostOnce"
            ELSE IF ~err /\ \E k \in DOMAIN lastOk : k[1] = id /\ ~lastOk[k] THEN "ErrIfNotDelivered"
            ELSE "")
-  /\ cbs' = cbs \cup {id} /\ UNCHANGED <<reqs, lastOk>>
-PPanic == Latch("NoPanic") /\ UNCHANGED <<reqs, cbs, lastOk>>
-PFinal == Latch(IF reqs \ cbs # {} THEN "CbExactlyOnce(a request was never answered)" ELSE "") /\ UNCHANGED <<reqs, cbs, lastOk>>
+  /\ cbs' = cbs \cup {id} /\ UNCHANGED <<reqs, rets, lastOk>>
+PPanic == Latch("NoPanic") /\ UNCHANGED <<reqs, cbs, rets, lastOk>>
+PFinal == Latch(IF reqs \ cbs # {} THEN "CbExactlyOnce(a request was never answered)"
+                ELSE IF reqs \ rets # {} THEN "FlusherNotBlocked(a SendMetricsAsync call never returned)" ELSE "") /\ UNCHANGED <<reqs, cbs, rets, lastOk>>
 \* the retry window of these requests is over (HTTP backends): they must have been answered by now
-PExpired(ids) == Latch(IF ids \ cbs # {} THEN "CbWhenWindowEnds(still unanswered after the retry window)" ELSE "") /\ UNCHANGED <<reqs, cbs, lastOk>>
+PExpired(ids) == Latch(IF ids \ cbs # {} THEN "CbWhenWindowEnds(still unanswered after the retry window)" ELSE "") /\ UNCHANGED <<reqs, cbs, rets, lastOk>>
+\* SendMetricsAsync of request id returned to the flusher
+PRet(id) == rets' = rets \cup {id} /\ UNCHANGED <<reqs, cbs, lastOk, bad>>
+\* a socket backend's request was cancelled and the backend came to rest: whoever made the call has it back (the ANSWER may wait for the
+\* sender to reach the request in its queue, which the statement allows: "when the connection recovers or the request is cancelled")
+PCancelled(id) == Latch(IF id \notin rets THEN "FlusherNotBlocked(the call of a cancelled request has not returned)" ELSE "")
+                  /\ UNCHANGED <<reqs, cbs, rets, lastOk>>
 PropertyHolds == bad = ""
 =============================================================================
